@@ -341,4 +341,191 @@ theorem acked_sublist_written (pre : Bool) (ops : List Op) (outs : List (Option 
       | restart => simpa [ackedItems, writtenItems] using ih outs
       | tick dt => simpa [ackedItems, writtenItems] using ih outs
 
+
+/-! ### histories with failing encoders (`XOp`) -/
+
+/-- a failed append writes nothing; in pre-process mode the policy has run before the encoder, so a
+rotation may have closed the current segment -/
+def ghostStepX (cfg : Cfg σ) (g : Ghost) (op : XOp) (o : Option Out) : Ghost :=
+  match op, o with
+  | .op op, o => ghostStep cfg g op o
+  | .appendFail _ _ _, some out =>
+    if cfg.trig.pre ∧ out.rolled = some true then { closed := g.closed ++ [g.cur], cur := [] } else g
+  | .appendFail _ _ _, none => g
+
+def grunX (cfg : Cfg σ) (s : St σ) (g : Ghost) : List XOp → List (Option Out) × St σ × Ghost
+  | [] => ([], s, g)
+  | op :: ops =>
+    let r := applyX cfg s op
+    let rest := grunX cfg r.2 (ghostStepX cfg g op r.1) ops
+    (r.1 :: rest.1, rest.2)
+
+theorem grunX_outs_state (cfg : Cfg σ) (s : St σ) (g : Ghost) (ops : List XOp) :
+    ((grunX cfg s g ops).1.zip ((traceX cfg s ops).map (·.2))) = (traceX cfg s ops).map (fun e => (e.1, e.2)) ∧
+    (grunX cfg s g ops).1 = (traceX cfg s ops).map (·.1) := by
+  induction ops generalizing s g with
+  | nil => exact ⟨rfl, rfl⟩
+  | cons op ops ih =>
+    obtain ⟨h1, h2⟩ := ih (applyX cfg s op).2 (ghostStepX cfg g op (applyX cfg s op).1)
+    simp only [grunX, traceX, List.map_cons, List.zip_cons_cons]
+    exact ⟨by rw [h1], by rw [h2]⟩
+
+theorem Inv.appendFailStep {cfg : Cfg σ} {arch : Disk → List Bytes} {s : St σ} {g : Ghost}
+    (hc : RollContract cfg.roll cfg.path arch) (inv : Inv cfg arch s g) (r : Rec) (n : Nat) (f : Option Nat) :
+    Inv cfg arch (appendFail cfg s r n (faultFn f)).2
+      (ghostStepX cfg g (.appendFail r n f) (some (appendFail cfg s r n (faultFn f)).1)) := by
+  have hov := openView_eq_cur cfg arch s g inv
+  obtain ⟨k, hk⟩ := inv.archives
+  have hwf' := appendFail_wf cfg s r n (faultFn f) inv.wf
+  cases hpre : cfg.trig.pre with
+  | true =>
+    obtain ⟨_, _, _, _, hno, herr, hyes⟩ := appendFail_pre_spec cfg s r n (faultFn f) inv.wf hpre _ _
+      (appendFail cfg s r n (faultFn f)).1 (appendFail cfg s r n (faultFn f)).2 rfl rfl rfl
+    cases hans : (cfg.trig.fire s.tst (openView cfg s).length s.now).1 with
+    | no =>
+      obtain ⟨hr, hro, ho, hse⟩ := hno hans
+      have hg : ghostStepX cfg g (.appendFail r n f) (some (appendFail cfg s r n (faultFn f)).1) = g := by
+        simp [ghostStepX, hro]
+      rw [hg]
+      refine ⟨hwf', ⟨k, by rw [hc.frame _ _ hse, hk]⟩, ?_⟩
+      rw [fileOf_opened ho, hov]
+    | err =>
+      obtain ⟨hr, hro, ho, hse⟩ := herr hans
+      have hg : ghostStepX cfg g (.appendFail r n f) (some (appendFail cfg s r n (faultFn f)).1) = g := by
+        simp [ghostStepX, hro]
+      rw [hg]
+      refine ⟨hwf', ⟨k, by rw [hc.frame _ _ hse, hk]⟩, ?_⟩
+      rw [fileOf_opened ho, hov]
+    | yes =>
+      obtain ⟨d1, hg1, hse1, h⟩ := hyes hans
+      rcases h with ⟨x, hx, hr, hro, ho, hse⟩ | ⟨e, he, hr, hro, hw, hd⟩
+      · have hroll : cfg.roll cfg.path (faultFn f) d1 = (.ok x, (cfg.roll cfg.path (faultFn f) d1).2) := by
+          rw [← hx]
+        obtain ⟨hgone, j, harch⟩ := hc.ok _ d1 x _ _ hroll hg1
+        have hfile : fileOf cfg (cfg.roll cfg.path (faultFn f) d1).2 = [] := by simp [fileOf, hgone]
+        rw [hfile] at ho
+        have hg : ghostStepX cfg g (.appendFail r n f) (some (appendFail cfg s r n (faultFn f)).1) =
+            { closed := g.closed ++ [g.cur], cur := [] } := by
+          simp [ghostStepX, hpre, hro]
+        rw [hg]
+        refine ⟨hwf', ?_, ?_⟩
+        · rw [hc.frame _ _ hse, harch, hc.frame _ _ hse1, hk, hov]
+          exact drop_map_snoc List.flatten g.closed g.cur k j
+        · rw [fileOf_opened ho]
+          simp
+      · have hroll : cfg.roll cfg.path (faultFn f) d1 = (.error e, (cfg.roll cfg.path (faultFn f) d1).2) := by
+          rw [← he]
+        obtain ⟨hsame, j, harch⟩ := hc.err _ d1 e _ hroll
+        have hg : ghostStepX cfg g (.appendFail r n f) (some (appendFail cfg s r n (faultFn f)).1) = g := by
+          simp [ghostStepX, hro]
+        rw [hg]
+        refine ⟨hwf', ⟨k + j, ?_⟩, ?_⟩
+        · rw [hd, harch, hc.frame _ _ hse1, hk, ← List.map_drop, List.drop_drop]
+        · rw [hd, fileOf, hsame, hg1, hov]
+          rfl
+  | false =>
+    obtain ⟨hout, ho, hse, _, _, _⟩ := appendFail_post_spec cfg s r n (faultFn f) inv.wf hpre
+    have hg : ghostStepX cfg g (.appendFail r n f) (some (appendFail cfg s r n (faultFn f)).1) = g := by
+      simp [ghostStepX, hpre]
+    rw [hg]
+    refine ⟨hwf', ⟨k, by rw [hc.frame _ _ hse, hk]⟩, ?_⟩
+    rw [fileOf_opened ho, hov]
+
+theorem Inv.stepX {cfg : Cfg σ} {arch : Disk → List Bytes} {s : St σ} {g : Ghost}
+    (hc : RollContract cfg.roll cfg.path arch) (inv : Inv cfg arch s g) (op : XOp) :
+    Inv cfg arch (applyX cfg s op).2 (ghostStepX cfg g op (applyX cfg s op).1) := by
+  cases op with
+  | op o => exact inv.step hc o
+  | appendFail r n f => exact inv.appendFailStep hc r n f
+
+theorem Inv.historyX {cfg : Cfg σ} {arch : Disk → List Bytes}
+    (hc : RollContract cfg.roll cfg.path arch)
+    (ops : List XOp) {s : St σ} {g : Ghost} (inv : Inv cfg arch s g) :
+    Inv cfg arch (grunX cfg s g ops).2.1 (grunX cfg s g ops).2.2 := by
+  induction ops generalizing s g with
+  | nil => exact inv
+  | cons op ops ih => exact ih (inv.stepX hc op)
+
+def XOp.isRestart : XOp → Bool
+  | .op o => o.isRestart
+  | .appendFail _ _ _ => false
+
+/-- the items written by a history with failing encoders: a failed append contributes nothing -/
+def writtenItemsX (pre : Bool) : List XOp → List (Option Out) → List Bytes
+  | .op (.append r _) :: ops, some out :: outs => (if wrote pre out then [encBytes r] else []) ++ writtenItemsX pre ops outs
+  | _ :: ops, _ :: outs => writtenItemsX pre ops outs
+  | _, _ => []
+
+def ackedItemsX : List XOp → List (Option Out) → List Bytes
+  | .op (.append r _) :: ops, some out :: outs => (if out.res = .ok then [encBytes r] else []) ++ ackedItemsX ops outs
+  | _ :: ops, _ :: outs => ackedItemsX ops outs
+  | _, _ => []
+
+theorem ghostStepX_stream_appendFail (cfg : Cfg σ) (g : Ghost) (r : Rec) (n : Nat) (f : Option Nat) (o : Option Out) :
+    (ghostStepX cfg g (.appendFail r n f) o).stream = g.stream := by
+  cases o with
+  | none => rfl
+  | some out =>
+    simp only [ghostStepX, Ghost.stream]
+    split <;> simp
+
+theorem grunX_stream (cfg : Cfg σ) (ops : List XOp) (s : St σ) (g : Ghost)
+    (hnr : cfg.appendMode = true ∨ ∀ op ∈ ops, op.isRestart = false) :
+    (grunX cfg s g ops).2.2.stream = g.stream ++ writtenItemsX cfg.trig.pre ops (grunX cfg s g ops).1 := by
+  induction ops generalizing s g with
+  | nil => simp [grunX, writtenItemsX]
+  | cons op ops ih =>
+    have hnr' : cfg.appendMode = true ∨ ∀ op ∈ ops, op.isRestart = false := by
+      rcases hnr with h | h
+      · exact Or.inl h
+      · exact Or.inr (fun o ho => h o (List.mem_cons_of_mem _ ho))
+    simp only [grunX]
+    rw [ih _ _ hnr']
+    cases op with
+    | appendFail r n f =>
+      rw [ghostStepX_stream_appendFail]
+      simp [writtenItemsX]
+    | op o =>
+      cases o with
+      | append r f =>
+        simp only [applyX, applyOp, writtenItemsX, ghostStepX]
+        rw [ghostStep_stream_append]
+        simp
+      | restart =>
+        have : ghostStepX cfg g (.op .restart) (applyX cfg s (.op .restart)).1 = g := by
+          rcases hnr with h | h
+          · simp [ghostStepX, ghostStep, h]
+          · have := h (.op .restart) (List.mem_cons_self ..)
+            simp [XOp.isRestart, Op.isRestart] at this
+        rw [this]
+        simp [applyX, applyOp, writtenItemsX]
+      | tick dt => simp [applyX, applyOp, writtenItemsX, ghostStepX, ghostStep]
+
+theorem ackedX_sublist_writtenX (pre : Bool) (ops : List XOp) (outs : List (Option Out)) :
+    (ackedItemsX ops outs).Sublist (writtenItemsX pre ops outs) := by
+  induction ops generalizing outs with
+  | nil => simp [ackedItemsX, writtenItemsX]
+  | cons op ops ih =>
+    cases outs with
+    | nil => cases op with
+      | op o => cases o <;> simp [ackedItemsX, writtenItemsX]
+      | appendFail r n f => simp [ackedItemsX, writtenItemsX]
+    | cons o outs =>
+      cases op with
+      | appendFail r n f => simpa [ackedItemsX, writtenItemsX] using ih outs
+      | op oo =>
+        cases oo with
+        | append r f =>
+          cases o with
+          | none => simpa [ackedItemsX, writtenItemsX] using ih outs
+          | some out =>
+            simp only [ackedItemsX, writtenItemsX]
+            apply List.Sublist.append _ (ih outs)
+            by_cases hok : out.res = .ok
+            · have : wrote pre out = true := by cases pre <;> simp [wrote, hok]
+              simp [hok, this]
+            · simp [hok]
+        | restart => simpa [ackedItemsX, writtenItemsX] using ih outs
+        | tick dt => simpa [ackedItemsX, writtenItemsX] using ih outs
+
 end Log4rs.Rolling
